@@ -277,4 +277,84 @@ rewrite (nth_map 0) ?sw //.
 have /(allP pos) /= -> // : nth 0 w j \in w by apply: mem_nth; rewrite sw.
 Qed.
 
+(* ------------------------------------------------------------------ InvQuadLogdet.forward: the stochastic log-determinant *)
+(* Whenever the model's forward pass succeeds (logdet forward not skipped), the returned log-determinant of batch member b is
+     log|P_b|  +  sum over the m tridiagonal matrices T of that member of  (n/m) * sum_k V_T[0,k]^2 ln(lambda_T[k])
+   where (lambda_T, V_T) = lanczos_tridiag_to_diag(T), T the matrices linear_cg returned, log|P_b| the preconditioner
+   correction (0 without a preconditioner). *)
+Lemma iql_forward_logdet (S : settings F) (eigh : nat -> mat F -> vec F * mat F) bs n gs R reduce probes iq ld :
+  ~~ s_skip_logdet_forward S ->
+  iql_forward ArR eigh S bs n gs R reduce probes = ROk (iq, ld) ->
+  exists o : cg_output F,
+    let m := s_num_trace_samples S in
+    let tm := odflt [::] (o_tmat o) in
+    let ldp := [seq if P is Some L then chol_logdet ArR n L else 0 | P <- [seq member_precond ArR S g | g <- gs]] in
+    ld = OVal bs (mkseq (fun b =>
+           let Ts := take m (drop (b * m) tm) in
+           \sum_(T <- Ts) n%:R / (size Ts)%:R * slq_probe ArR (tridiag_to_diag ArR eigh (size T) T) + nth 0 ldp b)
+         (size gs)).
+Proof.
+move=> /negbTE nskip; rewrite /iql_forward; case: ifP => // _.
+case: (run_cg _ _ _ _ _ _ _) => // o [_ <-]; exists o => /=.
+rewrite nskip.
+have -> : has (fun T : mat F => has (has (is_nanb ArR)) T) (odflt [::] (o_tmat o)) = false.
+  have e1 : is_nanb ArR =1 pred0 by move=> x; rewrite /is_nanb /= eqxx.
+  have e2 : has (is_nanb ArR) =1 pred0 by move=> r; rewrite (eq_has e1) has_pred0.
+  have e3 : (fun T : mat F => has (has (is_nanb ArR)) T) =1 pred0 by move=> T; rewrite (eq_has e2) has_pred0.
+  by rewrite (eq_has e3) has_pred0.
+congr (OVal _ _); apply: eq_mkseq => b.
+by rewrite slq_to_dense_sum size_map big_map.
+Qed.
+
+(* ------------------------------------------------------------------ the Cholesky shortcut, end to end for one member *)
+(* hypothesis on the torch.linalg.cholesky primitive: the factor the model computes is a Cholesky factor of M *)
+Definition chol_ok (n : nat) (M : mat F) : Prop :=
+  let L := cholesky ArR n M in
+  [/\ lower n L, diag_nz n L & mx_of n n L *m (mx_of n n L)^T = mx_of n n M].
+
+(* inverse quadratic form and log-determinant of the dense route = the dense values *)
+Lemma dense_iq_col_correct n t M (R : cols F) (j : 'I_t) : chol_ok n M ->
+  dense_iq_col ArR n M (nth [::] R j) = ((cols_mx n t R)^T *m invmx (mx_of n n M) *m cols_mx n t R) j j.
+Proof. by case=> lo nz E; rewrite /dense_iq_col chol_iq_col_correct // E. Qed.
+
+Lemma dense_chol_logdet_correct n M :
+  (forall x y, 0 < x -> 0 < y -> ln (x * y) = ln x + ln y) -> chol_ok n M ->
+  dense_chol_logdet ArR n M = ln (\det (mx_of n n M)).
+Proof. by move=> ln_mul [lo nz E]; rewrite /dense_chol_logdet chol_logdet_correct // E. Qed.
+
+(* ------------------------------------------------------------------ TriangularLinearOperator: the sign rule *)
+Lemma asign_sgr (x : F) : asign ArR x = Num.sg x.
+Proof.
+rewrite /asign /=; case: (ltrgt0P x) => [x0|x0|->]; rewrite ?sgr0 ?ltxx //.
+- by rewrite gtr0_sg.
+- by rewrite ltr0_sg.
+Qed.
+
+(* with a positive determinant the model returns  sum_i ln|t_ii| = ln det T  (and never the NaN of the sign rule);
+   with a negative determinant it returns the NaN placeholder *)
+Lemma tri_logdet_correct n T :
+  (forall x y, 0 < x -> 0 < y -> ln (x * y) = ln x + ln y) ->
+  lower n T -> diag_nz n T -> 0 < \det (mx_of n n T) ->
+  tri_logdet ArR n T = ln (\det (mx_of n n T)).
+Proof.
+move=> ln_mul lo nz dpos; rewrite /tri_logdet prodn_big sumn_big.
+have dE : \det (mx_of n n T) = \prod_(i < n) mget T i i.
+  by rewrite -mxf_mget (det_trig (lowerf_trig lo)); apply: eq_bigr => i _; rewrite mxE.
+have -> : \prod_(i < n) asign ArR (mget T i i) = Num.sg (\det (mx_of n n T)).
+  by rewrite dE (big_morph _ (@sgrM F) (@sgr1 F)); apply: eq_bigr => i _; rewrite asign_sgr.
+rewrite gtr0_sg //= ltr10 /=.
+rewrite -(ln_prod ln_mul); last by move=> i _; rewrite normr_gt0 nz.
+by rewrite -(big_morph _ (@normrM F) (@normr1 F)) -dE gtr0_norm.
+Qed.
+
+Lemma tri_logdet_negative n T : lower n T -> \det (mx_of n n T) < 0 -> tri_logdet ArR n T = 0.
+Proof.
+move=> lo dneg; rewrite /tri_logdet prodn_big.
+have dE : \det (mx_of n n T) = \prod_(i < n) mget T i i.
+  by rewrite -mxf_mget (det_trig (lowerf_trig lo)); apply: eq_bigr => i _; rewrite mxE.
+have -> : \prod_(i < n) asign ArR (mget T i i) = Num.sg (\det (mx_of n n T)).
+  by rewrite dE (big_morph _ (@sgrM F) (@sgr1 F)); apply: eq_bigr => i _; rewrite asign_sgr.
+by rewrite ltr0_sg //= ltrN10.
+Qed.
+
 End Bridge.
